@@ -64,9 +64,10 @@ Definition media_lexable_runes (s : list N) : bool :=
       CteRead.is_alpha c &&
       (let '(_, r1) := CteRead.span CteRead.ch_media_next r in
        match r1 with
-       | 47 :: r2 => let '(run2, r3) := CteRead.span CteRead.ch_media_next r2 in
-                     nonemptyb run2 && negb (nonemptyb r3)
-       | _ => false
+       | x :: r2 => (x =? 47) &&
+                    (let '(run2, r3) := CteRead.span CteRead.ch_media_next r2 in
+                     nonemptyb run2 && negb (nonemptyb r3))
+       | [] => false
        end)
   | [] => false
   end.
@@ -203,10 +204,7 @@ Definition time_expected (t : ctime) : option bytes :=
 (** * 3. The pipelines *)
 
 Definition rules_forward (es : list event) : option (list event) :=
-  match Rules.run Rules.default_rcfg es with
-  | (c, out, None) => match Rules.e_rule (Rules.cur c) with Rules.RTerminal => Some out | _ => None end
-  | _ => None
-  end.
+  if Rules.accepts_document Rules.default_rcfg es then Some (Rules.forwarded Rules.default_rcfg es) else None.
 
 (* cbe.Decoder -> rules: the events the next receiver gets for an accepted document *)
 Definition cbe_side (doc : bytes) : option (list event) :=
